@@ -44,8 +44,26 @@ def run_static(out, tier, seed):
     out.extra.update({"programs": len(progs), "paths": len(traces), "probe_runs": nruns})
 
 
+def run_models(out, tier, seed):
+    """M level of the rewrite: TLC over every small statement shape (Xform: assignments, XformStmts: the other binding
+    statements); the Stream law holds exactly where no difference class applies, and the classes are the known ones"""
+    from .. import core, xformcheck as XC
+    r = core.run_tlc("XformStmtsMC", "XformStmtsMC.cfg", workers=1, timeout=900)
+    out.add_tlc("XformStmtsMC", r)
+    if r.violated:
+        out.judge({"clause": "XformStmtsModel"}, {"tlc": r.out[-2500:]})
+    sigs = sorted(t[1] for t in r.tagged("SIGNATURE"))
+    out.extra["xformstmts_signatures"] = sigs
+    unexpected = [x for x in sigs if x not in ("DeclaredOnlySupplied", "WithTargetNoEvent", "FallOffNoValue")]
+    if unexpected:
+        out.drift.append(f"XformStmts derives difference classes that are not recorded findings: {unexpected}")
+    # the assignment shapes for real: single-variable probes, the stream against Python's binding history (TraceXformMech)
+    XC.run(out, tier, seed, {"Stream"}, ["singles"], 120 if tier == "quick" else 0)
+
+
 def run(out, tier, seed):
     run_static(out, tier, seed)
+    run_models(out, tier, seed)
     out.clause_filter = None
     P.run_world(out, tier, seed, gen_case, PLAN, salt=19,
                 rule="random binding sequences (parameter, plain, augmented, annotated, loop target) with loops, early exits "
